@@ -20,3 +20,12 @@ Definition Ta_endStream := a_endStream tape tape_begin tape_chunk.
 Definition Ta_reset := @a_reset tape.
 Definition Ta_wview := @wview tape.
 Definition Ta_hint := @k_hint tape.
+
+(* ---------- round 3: the stability layer (C10Stab.v: expectedInBuffer.pos and ZSTD_checkBufferStability) ---------- *)
+From ZV.Stream Require Import C10Stab.
+Definition Ts_new (t : tape) := @s_new tape t.
+Definition Ts_call := s_call_gen tape tape_begin tape_chunk false CheckNow.
+Definition Ts_stream (P : kparams) (fc : fconf) (X : bytes) (s : sstate tape) (n cap : N) :=
+  s_call_gen tape tape_begin tape_chunk true CheckNow P fc X s n cap DirContinue.
+Definition Ts_flushStream := s_flushStream tape tape_begin tape_chunk KeepNow.
+Definition Ts_endStream := s_endStream tape tape_begin tape_chunk KeepNow.
